@@ -4,7 +4,15 @@ Tie: Gen/MobAllocConst.v (FREQ_TYPE_SERV/HOPP, freq[]/hopping[] bounds from sysi
 the bound of the function's local array f - all as compiled) + correspondence of the extracted model with the textually
 extracted real function, compiled with ASan + UBSan (vla-bound on), one forked child per input so that a sanitizer abort is
 attributed to its input.  The former defect (len = 0: zero-length VLA + stack overflow, fixed in /repo 1f7898e) stays in the
-oracle under its key: a sanitizer report or a wrong result at len = 0 is reported as c20-len0-vla-overflow."""
+oracle under its key: a sanitizer report or a wrong result at len = 0 is reported as c20-len0-vla-overflow.
+
+The callers (Model/MobAllocSi4.v, Proofs/MobAllocSi4P.v): the tail of gsm48_decode_sysinfo4 (CBCH Channel Description / CBCH Mobile
+Allocation IEs of SI4) and the mobile-allocation branch of gsm48_rr_render_ma.  Tie: Gen/MobAllocSi4Const.v (EIO, the two IE tags,
+sizeof of the SI4 header and of struct gsm48_chan_desc, sizeof(mob_alloc_lv), the RR cause - as compiled by charness/c20_si4.c) +
+correspondence of w_c20_si4 / w_c20_render with the verbatim texts of gsm48_decode_sysinfo4 (+ helpers) and gsm48_rr_render_ma; the
+SI4 message is an exact-size heap block, so a read of one octet behind the message is an ASan report attributed to its input.
+The former defect (the length octet of the CBCH Mobile Allocation IE read behind a message that ends with the tag 0x72, fixed in
+/repo d574cef) stays in the oracle under the key c20-si4-ma-length-octet-overread."""
 import json
 import os
 import re
@@ -15,7 +23,16 @@ from ..common import REPO, LIBOSMO, ROOT, WORK
 
 SYSINFO_C = "src/host/layer23/src/common/sysinfo.c"
 SYSINFO_H = "src/host/layer23/include/osmocom/bb/common/sysinfo.h"
+GSM48_RR_C = "src/host/layer23/src/mobile/gsm48_rr.c"
+GSM48_RR_H = "src/host/layer23/include/osmocom/bb/mobile/gsm48_rr.h"
 LEN0_KEY = "c20-len0-vla-overflow"
+TAG_LAST_KEY = "c20-si4-ma-length-octet-overread"
+IE_CD, IE_MA = 0x64, 0x72          # 44.018: CBCH Channel Description / CBCH Mobile Allocation (the theorems state them literally)
+CB0 = [201, 202, 203, 204, 205, 60001]   # chan_nr h tsc maio hsn arfcn before the call (Model.MobAllocSi4.cb0, charness/c20_si4.c)
+# sha256 of the text of gsm48_decode_sysinfo4 / gsm48_rr_render_ma the caller models were written against (a change is a note)
+REVIEWED_SI4_SHA256 = "1c0c634e0fcffad4cae367753e42135bf76f0b759e1c033de4cc8f20bdd481b0"
+REVIEWED_RENDER_SHA256 = "0221a7b1b521f5cc166452e45d6c3b07092cbf98ee9abcf772eb4a1f9fd51b92"
+_SI4 = {}
 # sha256 of the text of gsm48_decode_mobile_alloc the model was written against (a change is a note, never an alarm)
 REVIEWED_FN_SHA256 = "7cf774ea26ea9c9e037655bcb1fd1a635d1be7f5dcfbe42c3b67f74f33acd5c3"
 CODES = {-997: "UBSan vla-bound (zero-length VLA)", -998: "ASan/UBSan memory error", -996: "abnormal end"}
@@ -59,7 +76,79 @@ def build_c(ctx):
     return path
 
 
+def extract_si4_sources():
+    """verbatim texts for charness/c20_si4.c: gsm48_decode_sysinfo4 and the helpers it calls, gsm48_rr_render_ma"""
+    d = os.path.join(WORK, "c")
+    os.makedirs(d, exist_ok=True)
+    src = os.path.join(REPO, SYSINFO_C)
+    with open(src) as f:
+        text = f.read()
+    parts, stub_rach = [], False
+    tabs = [re.search(r"^static\s+const\s+uint8_t\s+%s\s*\[[^\]]*\]\s*=\s*\{[^}]*\}\s*;" % n, text, re.M)
+            for n in ("gsm48_max_retrans", "gsm48_tx_integer")]
+    try:
+        rach = common.c_function_text(src, "gsm48_decode_rach_ctl_param")
+    except RuntimeError:
+        rach = None
+    if rach is None or not all(tabs):
+        stub_rach = True
+    else:
+        parts += [t.group(0) for t in tabs] + [rach]
+    for name in ("gsm48_decode_chan_h0", "gsm48_decode_chan_h1", "gsm48_decode_cell_sel_param"):
+        parts.append(common.c_function_text(src, name))
+    si4 = common.c_function_text(src, "gsm48_decode_sysinfo4")
+    parts.append(si4)
+    common.write_if_changed(os.path.join(d, "c20_si4_fn.inc"), "\n\n".join(parts) + "\n")
+    with open(os.path.join(REPO, GSM48_RR_H)) as f:
+        m = re.search(r"uint8_t\s+mob_alloc_lv\s*\[\s*([^\]]+)\]\s*;", f.read())
+    lv = m.group(1).strip() if m and re.fullmatch(r"[\s0-9xXa-fA-FuUlL<>+\-*/()]+", m.group(1).strip()) else "0"
+    common.write_if_changed(os.path.join(d, "c20_si4_defs.inc"), "/* extracted from %s */\n#define C20_MOB_ALLOC_LV_SIZE (%s)\n%s" % (
+        GSM48_RR_H, lv, "#define C20_STUB_RACH 1\n" if stub_rach else ""))
+    try:
+        render = common.c_function_text(os.path.join(REPO, GSM48_RR_C), "gsm48_rr_render_ma")
+    except (RuntimeError, OSError):
+        render = None
+    common.write_if_changed(os.path.join(d, "c20_render_fn.inc"), (render or "/* gsm48_rr_render_ma not found */") + "\n")
+    return si4, render, stub_rach
+
+
+def build_si4(ctx):
+    si4, render, stub_rach = extract_si4_sources()
+    extract_sources()      # c20_fn.inc: gsm48_decode_mobile_alloc
+    flags = "-I%s/charness/stubs/c20 -I%s/src/host/layer23/include -I%s/include -I%s/c" % (ROOT, REPO, LIBOSMO, WORK)
+    src = [os.path.join(ROOT, "charness/c20_si4.c")]
+    with_render = False
+    if render is not None:
+        ok, path, log = common.cc("c20_si4", src, flags=flags + " -DC20_WITH_RENDER")
+        with_render = ok
+        if not ok:
+            ctx.note("gsm48_rr_render_ma does not compile in the harness (assignment path not executed): " + log[-400:].replace("\n", " | "))
+    if not with_render:
+        ok, path, log = common.cc("c20_si4", src, flags=flags)
+        if not ok:
+            raise RuntimeError("C20 SI4 harness does not compile:\n" + log[-3000:])
+    if stub_rach:
+        ctx.note("gsm48_decode_rach_ctl_param / its tables not located: stubbed in the SI4 harness")
+    return path, with_render, si4, render
+
+
 def gen(ctx):
+    import hashlib
+    si4bin, with_render, si4_text, render_text = build_si4(ctx)
+    out = subprocess.run([si4bin, "const"], stdout=subprocess.PIPE, text=True, timeout=30).stdout.split()
+    eio, ie_cd, ie_ma, hdr, cdsz, lvsz, cause = [int(x) for x in out]
+    txt = common.gen_header("errno.h EIO, gsm_04_08.h GSM48_IE_CBCH_CHAN_DESC / GSM48_IE_CBCH_MOB_AL / sizeof(struct gsm48_system_information_type_4) / "
+                            "sizeof(struct gsm48_chan_desc) / GSM48_RR_CAUSE_NO_CELL_ALLOC_A, gsm48_rr.h sizeof(struct gsm48_rr_cd.mob_alloc_lv) - all as compiled")
+    txt += ("Definition c_EIO : Z := %d.\nDefinition c_IE_CBCH_CHAN_DESC : Z := %d.\nDefinition c_IE_CBCH_MOB_AL : Z := %d.\n"
+            "Definition c_SI4_HDR_SIZE : Z := %d.\nDefinition c_CHAN_DESC_SIZE : Z := %d.\nDefinition c_MOB_ALLOC_LV_SIZE : Z := %d.\n"
+            "Definition c_CAUSE_NO_CELL_ALLOC_A : Z := %d.\n" % (eio, ie_cd, ie_ma, hdr, cdsz, lvsz, cause))
+    ctx.gen("MobAllocSi4Const", txt)
+    _SI4.clear()
+    _SI4.update(bin=si4bin, render=with_render, hdr=hdr, lv=lvsz,
+                si4_sha=hashlib.sha256(si4_text.encode()).hexdigest(),
+                render_sha=hashlib.sha256(render_text.encode()).hexdigest() if render_text else None)
+    ctx.extra["gen_constants_callers"] = dict(EIO=eio, IE_CBCH_CHAN_DESC=ie_cd, IE_CBCH_MOB_AL=ie_ma, si4_header=hdr, chan_desc=cdsz,
+                                              mob_alloc_lv=lvsz, cause_no_cell_alloc=cause, render_harness=with_render)
     bins = build_c(ctx)
     out = subprocess.run([bins, "const"], stdout=subprocess.PIPE, text=True, timeout=30).stdout.split()
     serv, hopp, fsize, hsize, einval, esize, fcap = [int(x) for x in out]
@@ -242,8 +331,8 @@ def spec(c):
     return exp, sel, ca
 
 
-def _run_chunk(binp, lines, timeout):
-    p = subprocess.run([binp], input="\n".join(lines) + "\n", stdout=subprocess.PIPE, stderr=subprocess.PIPE, text=True, timeout=timeout)
+def _run_chunk(binp, lines, timeout, args=()):
+    p = subprocess.run([binp] + list(args), input="\n".join(lines) + "\n", stdout=subprocess.PIPE, stderr=subprocess.PIPE, text=True, timeout=timeout)
     outl = p.stdout.strip("\n").split("\n") if p.stdout.strip() else []
     if p.returncode != 0 or len(outl) != len(lines):
         raise RuntimeError("C20 harness failed (rc %d, %d of %d lines): %s" % (p.returncode, len(outl), len(lines), p.stderr[-1500:]))
@@ -256,7 +345,7 @@ def _run_chunk(binp, lines, timeout):
     return [[int(x) for x in l.split()] for l in outl], reports
 
 
-def run_impl(binp, lines, timeout=3000):
+def run_impl(binp, lines, timeout=3000, args=()):
     """every line runs in its own forked child inside the harness; chunks run in parallel harness processes.
     Returns (observations, {case index: first lines of the sanitizer report})"""
     from concurrent.futures import ThreadPoolExecutor
@@ -265,11 +354,308 @@ def run_impl(binp, lines, timeout=3000):
     chunks = [(a, lines[a:a + step]) for a in range(0, n, step)]
     res, reports = [None] * n, {}
     with ThreadPoolExecutor(max_workers=max(1, common.NPROC - 2)) as ex:
-        for (a, ch), (obs, rep) in zip(chunks, ex.map(lambda c: _run_chunk(binp, c[1], timeout), chunks)):
+        for (a, ch), (obs, rep) in zip(chunks, ex.map(lambda c: _run_chunk(binp, c[1], timeout, args), chunks)):
             res[a:a + len(ch)] = obs
             for k, v in rep.items():
                 reports[a + k] = v
     return res, reports
+
+# ------------------------------------------------------------------ the callers: SI4 tail, gsm48_rr_render_ma
+
+def _rand_ca(rng, size, with0):
+    pool = list(range(1, 1024))
+    rng.shuffle(pool)
+    ca = pool[:max(0, size - (1 if with0 else 0))]
+    if with0:
+        ca.append(0)
+    return ca
+
+
+def _rand_table(rng):
+    """(table dict, bg, |CA|): cell allocation with SERV + random other bits (stale HOPP among them), a few stale non-CA entries"""
+    size = rng.choice([0, 1, 2, 3, 7, 8, 9, 16, 17, 31, 33, 63, 64, 65, 100])
+    with0 = size > 0 and rng.chance(1, 2)
+    ca = _rand_ca(rng, size, with0)
+    bg = rng.choice([0, 0, 0, 2, 0x1C, 0xE2, 0xFE])
+    t = {}
+    for a in ca:
+        t[a] = 1 | (rng.below(256) & 0xFE if rng.chance(1, 2) else (2 if rng.chance(1, 2) else 0))
+    for _ in range(rng.range(0, 6)):
+        a = rng.below(1024)
+        if a not in t:
+            t[a] = rng.below(256) & 0xFE
+    return t, bg, len(ca)
+
+
+def _rand_bitmap(rng, length, nca):
+    if length == 0:
+        return []
+    kind = rng.choice(["random", "ones", "single", "low", "exact", "zero"])
+    nb = 8 * length
+    m = [0] * length
+    if kind == "ones":
+        return [255] * length
+    if kind == "single":
+        i = rng.below(nb)
+        m[length - 1 - i // 8] = 1 << (i % 8)
+    elif kind == "low":
+        for i in range(min(nca, nb)):
+            if rng.chance(1, 2):
+                m[length - 1 - i // 8] |= 1 << (i % 8)
+    elif kind == "exact":
+        for i in range(min(nca, nb)):
+            m[length - 1 - i // 8] |= 1 << (i % 8)
+    elif kind == "random":
+        m = [rng.below(256) for _ in range(length)]
+    return m
+
+
+def mk_si4(si1, hl0, hfill, bg, pay, table, kind):
+    return dict(path="si4", si1=si1, hl0=hl0, hfill=hfill, bg=bg, pay=list(pay), table=dict(table), kind=kind)
+
+
+def mk_render(hl0, hfill, bg, lv, table, kind):
+    return dict(path="render", hl0=hl0, hfill=hfill, bg=bg, lv=list(lv), table=dict(table), kind=kind)
+
+
+def line_of_caller(c):
+    if c["path"] == "si4":
+        a = [c["si1"], c["hl0"], c["hfill"], c["bg"], len(c["pay"])] + c["pay"]
+    else:
+        a = [c["hl0"], c["hfill"], c["bg"], len(c["lv"])] + c["lv"]
+    for k in sorted(c["table"]):
+        a += [k, c["table"][k]]
+    return " ".join(map(str, a))
+
+
+def show_caller(c):
+    ca = [a for a, m in enumerate(masks_of(c)) if m & 1]
+    d = dict(path=c["path"], kind=c["kind"], hl0=c["hl0"], hfill=c["hfill"], bg=c["bg"],
+             cell_alloc=ca if len(ca) <= 80 else ca[:80] + ["...(%d)" % len(ca)], line=line_of_caller(c))
+    if c["path"] == "si4":
+        d.update(si1=c["si1"], payload=" ".join("%02x" % b for b in c["pay"]),
+                 message="SI4 of %d octets = 13 header octets + payload" % (13 + len(c["pay"])))
+    else:
+        d.update(mob_alloc_lv=" ".join("%02x" % b for b in c["lv"]))
+    return d
+
+
+def caller_of_line(path, line, kind):
+    a = [int(x) for x in line.split()]
+    if path == "si4":
+        n = a[4]
+        head, body, rest = a[:4], a[5:5 + n], a[5 + n:]
+    else:
+        n = a[3]
+        head, body, rest = a[:3], a[4:4 + n], a[4 + n:]
+    t = {rest[i]: rest[i + 1] for i in range(0, len(rest) - 1, 2)}
+    if path == "si4":
+        return mk_si4(head[0], head[1], head[2], head[3], body, t, kind)
+    return mk_render(head[0], head[1], head[2], body, t, kind)
+
+
+def gen_si4_cases(rng, tables, n_random):
+    cases = []
+    for _ in range(tables):
+        t, bg, nca = _rand_table(rng)
+        hl0 = rng.choice([0, 3, 64, 200])
+        hfill = rng.choice([0, 7, 1000, 40000, 65500])
+        for cdk in ("none", "h0", "h1"):
+            if cdk == "none":
+                cd = []
+            else:
+                b2 = (rng.below(8) << 5) | ((1 if cdk == "h1" else 0) << 4) | rng.below(16)
+                cd = [IE_CD, rng.below(256), b2, rng.below(256)]
+            for l in range(0, 11):
+                ie = [IE_MA, l] + _rand_bitmap(rng, l, nca)
+                tail = rng.choice([[], [0x2B], [0x2B, 0x2B, 0x2B], [rng.below(256) for _ in range(rng.range(1, 3))]])
+                full = cd + ie + tail
+                for cut in range(0, len(full) + 1):
+                    for si1 in (1, 0):
+                        # before SI1 every second cut position is enough (the decoder is not called)
+                        if si1 == 0 and (cut + l) % 2:
+                            continue
+                        cases.append(mk_si4(si1, hl0, hfill, bg, full[:cut], t, "grid cd=%s l=%d cut=%d/%d" % (cdk, l, cut, len(full))))
+    # hostile stream: short payloads made of tags, plausible length octets and noise
+    for _ in range(n_random):
+        t, bg, nca = _rand_table(rng)
+        pay = []
+        for _ in range(rng.range(0, 14)):
+            pay.append(rng.choice([IE_CD, IE_MA, IE_MA, rng.below(12), rng.below(12), rng.below(256), 0x2B]))
+        cases.append(mk_si4(rng.choice([0, 1, 1, 1, 255]), rng.choice([0, 1, 63, 64, 255]), rng.choice([0, 7, 65500]), bg, pay, t, "hostile"))
+    bad = [mk_si4(1, 256, 0, 0, [IE_MA, 0], {}, "malformed"), mk_si4(1, 0, 0, 0, [256], {}, "malformed"),
+           mk_si4(1, 0, 70000, 0, [IE_MA], {}, "malformed"), mk_si4(1, 0, 0, 0, [IE_MA, 1, 1], {1024: 1}, "malformed")]
+    return cases + bad
+
+
+def gen_render_cases(rng, n, lvsize):
+    cases = []
+    for k in range(n):
+        t, bg, nca = _rand_table(rng)
+        if k % 12 == 11:
+            l = rng.choice([9, 10, 64, 128, 255])
+            hl0 = rng.choice([0, 1, 63, 64])        # the band loop behind the branch walks ma[0 .. ma_len-1]: stay inside ma[64]
+        else:
+            l = 1 + k % 8
+            hl0 = rng.choice([0, 1, 63, 64, 200, 255])
+        vals = _rand_bitmap(rng, min(l, lvsize - 1), nca) if l <= lvsize - 1 else [rng.below(256) for _ in range(lvsize - 1)]
+        lv = ([l] + vals + [rng.below(256) for _ in range(lvsize)])[:lvsize]
+        cases.append(mk_render(hl0, rng.choice([0, 7, 1000, 65500]), bg, lv, t, "render l=%d" % l))
+    return cases
+
+
+def si4_spec(c):
+    """the property on one SI4 payload: (class, expected observation).  Written from 44.018 9.1.36 / 10.5.2.5 / 10.5.2.21 and
+    the statement, not from the model: a truncated IE is a short read (-EIO, list / hopp_len / flags as before)."""
+    pay, off = c["pay"], 0
+    cb = list(CB0)
+    hop0 = [(c["hfill"] + k) % 65536 for k in range(64)]
+    untouched = [c["hl0"]] + hop0
+    cdk = "none"
+    if pay and pay[0] == IE_CD:
+        if len(pay) < 4:
+            return ("cut-in-cd", cdk, None), [-5, -1, -1] + cb + untouched
+        a, b2, b3 = pay[1:4]
+        h, tsc = (b2 >> 4) & 1, b2 >> 5
+        if h:
+            cb = [a, 1, tsc, ((b2 & 15) << 2) | (b3 >> 6), b3 & 63, cb[5]]
+        else:
+            cb = [a, 0, tsc, cb[3], cb[4], ((b2 & 3) << 8) | b3]
+        off, cdk = 4, "h1" if h else "h0"
+    rem = pay[off:]
+    state, cls, lo = untouched, "no-ie", None
+    if rem and rem[0] == IE_MA:
+        if len(rem) < 2:
+            return ("cut-after-tag", cdk, None), [-5, -1, -1] + cb + untouched
+        lo = rem[1]
+        if len(rem) < 2 + lo:
+            return ("cut-in-ie", cdk, lo), [-5, -1, -1] + cb + untouched
+        cls = "complete"
+        if c["si1"]:
+            e = spec(dict(c, si4=1, len=lo, ma=rem[2:2 + lo], kind="si4"))
+            if isinstance(e, tuple):
+                state = e[0][1:]
+                cls = "complete-n%s" % ("0" if not e[1] else "64" if len(e[1]) == 64 else "+")
+            else:
+                cls = "complete-long"           # 9..255 octets: refused by the decoder, ignored by SI4
+        off += 2 + lo
+    left = len(pay) - off
+    return (cls, cdk, lo), [0] + ([off, left] if left > 0 else [-1, -1]) + cb + state
+
+
+def render_spec_py(c):
+    lv = c["lv"]
+    l = lv[0]
+    hop0 = [(c["hfill"] + k) % 65536 for k in range(64)]
+    if l > 8:
+        return ("long", l), [101 if c["hl0"] < 1 else 0, c["hl0"]] + hop0
+    e = spec(dict(c, si4=0, len=l, ma=lv[1:1 + l], kind="render"))
+    if e is None:
+        return ("array-short", l), None          # the array holds fewer than l bitmap octets although the decoder accepts l
+    exp, sel, ca = e
+    return ("n0" if not sel else "n64" if len(sel) == 64 else "n+", l), [101 if not sel else 0] + exp[1:]
+
+
+def run_callers(ctx, replay_case):
+    import hashlib
+    binp = _SI4["bin"]
+    ctx.extra["si4_function_sha256"] = _SI4["si4_sha"]
+    ctx.extra["render_function_sha256"] = _SI4["render_sha"]
+    if _SI4["si4_sha"] != REVIEWED_SI4_SHA256:
+        ctx.note("source of gsm48_decode_sysinfo4 changed since the caller model was reviewed (the correspondence decides)")
+    if _SI4["render_sha"] and _SI4["render_sha"] != REVIEWED_RENDER_SHA256:
+        ctx.note("source of gsm48_rr_render_ma changed since the caller model was reviewed (the correspondence decides)")
+    rng = ctx.rng.fork("callers")
+    quick = ctx.tier == "quick"
+    if replay_case is not None:
+        path = replay_case.get("path", "decoder")
+        si4c = [caller_of_line("si4", replay_case["line"], replay_case.get("kind", "replay"))] if path == "si4" else []
+        renc = [caller_of_line("render", replay_case["line"], replay_case.get("kind", "replay"))] if path == "render" else []
+    else:
+        si4c = gen_si4_cases(rng, 4 if quick else 60, 400 if quick else 8000)
+        renc = gen_render_cases(rng, 300 if quick else 6000, _SI4["lv"]) if _SI4["render"] else []
+    fails = {}
+
+    def fail(what, case, key, expected=None, observed=None):
+        fails.setdefault(key, []).append((what, case, expected, observed))
+
+    # ---- SI4
+    lines = [line_of_caller(c) for c in si4c]
+    impl, report = run_impl(binp, lines, args=("si4",))
+    idx = list(range(len(si4c)))
+    ctx.correspond("si4-cbch-mobile-alloc", "MobAlloc", idx, lambda k: "w_c20_si4 " + lines[k], lambda k: impl[k], show=lambda k: show_caller(si4c[k]))
+    for k, c in enumerate(si4c):
+        o = impl[k]
+        ctx.count("si4:" + c["kind"].split(" ")[0])
+        if c["kind"] == "malformed":
+            if o != [-999]:
+                fail("SI4 harness accepted a malformed line", show_caller(c), key="c20-harness-malformed", expected=[-999], observed=o)
+            continue
+        (cls, cdk, lo), exp = si4_spec(c)
+        if o and o[0] in CODES:
+            case = dict(show_caller(c), sanitizer=report.get(k, ""))
+            if cls == "cut-after-tag":
+                fail("gsm48_decode_sysinfo4 reads the length octet of the CBCH Mobile Allocation IE behind the end of the message: " + CODES[o[0]],
+                     case, key=TAG_LAST_KEY, expected=exp[:10], observed=o)
+            elif cls == "cut-in-ie":
+                fail("gsm48_decode_sysinfo4 hands the decoder a CBCH Mobile Allocation that ends behind the message (announced %d octets, %d present): %s"
+                     % (lo, len(c["pay"]) - (4 if cdk != "none" else 0) - 2, CODES[o[0]]), case, key="c20-si4-ma-overread", expected=exp[:10], observed=o)
+            else:
+                fail("gsm48_decode_sysinfo4: " + CODES[o[0]], case, key="c20-si4-memory", expected=exp[:10], observed=o)
+            ctx.nontrivial(("si4-crash", cls, cdk))
+            continue
+        if o != exp:
+            if cls.startswith("cut") and (o[:3] != exp[:3] or o[9:] != exp[9:]):
+                key, what = "c20-si4-short-read-accepted", "a SYSTEM INFORMATION 4 cut inside the %s is not refused with -EIO / changes the hopping list" % (
+                    "CBCH Channel Description" if cls == "cut-in-cd" else "CBCH Mobile Allocation IE")
+            elif o[:1] != exp[:1]:
+                key, what = "c20-si4-return-code", "gsm48_decode_sysinfo4 return code"
+            elif o[3:9] != exp[3:9]:
+                key, what = "c20-si4-chan-desc", "CBCH channel description members deviate from 44.018 10.5.2.5"
+            elif o[9:] != exp[9:] and not c["si1"]:
+                key, what = "c20-si4-before-si1", "CBCH Mobile Allocation not ignored before SI1"
+            elif o[9:10 + 64] != exp[9:10 + 64]:
+                key, what = "c20-si4-hopping-list", "hopping list stored by SI4 deviates from 44.018 10.5.2.21 on the IE value octets"
+            elif o[10 + 64:] != exp[10 + 64:]:
+                key, what = "c20-si4-hopp-flags", "FREQ_TYPE_HOPP flags after SI4"
+            else:
+                key, what = "c20-si4-consumed", "octets consumed before the SI4 rest octets"
+            fail(what, show_caller(c), key=key, expected=exp[:10 + 8], observed=o[:10 + 8])
+        ctx.nontrivial(("si4", cls, cdk, min(lo, 10) if lo is not None else None, bool(c["si1"]), exp[1] >= 0))
+    # ---- gsm48_rr_render_ma
+    if renc:
+        rl = [line_of_caller(c) for c in renc]
+        rimpl, rreport = run_impl(binp, rl, args=("render",))
+        ridx = list(range(len(renc)))
+        ctx.correspond("render-ma-assignment", "MobAlloc", ridx, lambda k: "w_c20_render " + rl[k], lambda k: rimpl[k], show=lambda k: show_caller(renc[k]))
+        for k, c in enumerate(renc):
+            o = rimpl[k]
+            cls, exp = render_spec_py(c)
+            ctx.count("render:l%s" % (c["lv"][0] if c["lv"][0] <= 8 else ">8"))
+            if exp is None:
+                fail("mob_alloc_lv holds %d bitmap octets, the length octet %d is accepted by the decoder: it reads behind the array"
+                     % (len(c["lv"]) - 1, c["lv"][0]), show_caller(c), key="c20-render-array-short", observed=o[:10])
+                continue
+            if o and o[0] in CODES:
+                fail("gsm48_rr_render_ma: " + CODES[o[0]], dict(show_caller(c), sanitizer=rreport.get(k, "")), key="c20-render-memory", expected=exp[:10], observed=o)
+                continue
+            if o != exp:
+                key = "c20-render-cause" if o[:1] != exp[:1] else "c20-render-list" if o[:2 + 64] != exp[:2 + 64] else "c20-render-flags"
+                fail("gsm48_rr_render_ma (mobile allocation) deviates from 44.018 10.5.2.21", show_caller(c), key=key, expected=exp[:10], observed=o[:10])
+            ctx.nontrivial(("render",) + cls)
+    elif replay_case is None:
+        ctx.count("render:not-executed")
+    for r in range(8):
+        for key in sorted(fails):
+            if r < len(fails[key]):
+                what, case, exp, obs = fails[key][r]
+                ctx.oracle_fail(what, case, key=key, expected=exp, observed=obs)
+    for key in fails:
+        if len(fails[key]) > 8:
+            ctx.count("oracle_fail:" + key, len(fails[key]) - 8)
+    for k in range(0, len(si4c), max(1, len(si4c) // 3)):
+        ctx.sample(dict(case=show_caller(si4c[k]), impl=impl[k][:12]), limit=10)
+    ctx.extra["si4_sanitizer_reports_first"] = [report[k] for k in sorted(report)[:3]]
 
 
 def run(ctx):
@@ -283,9 +669,14 @@ def run(ctx):
     if ctx.tier == "thorough":
         ctx.coqchk()
     rng = ctx.rng
+    replay_case = None
     if ctx.replay:
         with open(ctx.replay) as f:
-            rc = json.load(f)["case"]
+            replay_case = json.load(f)["case"]
+    if replay_case is not None and replay_case.get("path", "decoder") != "decoder":
+        cases = []
+    elif replay_case is not None:
+        rc = replay_case
         t = {}
         a = [int(x) for x in rc["line"].split()]
         nma = a[5]
@@ -370,7 +761,14 @@ def run(ctx):
     for k in range(0, len(cases), max(1, len(cases) // 6)):
         ctx.sample(dict(case=show(cases[k]), impl=impl[k][:12]))
     ctx.extra["sanitizer_reports_first"] = [first_report[k] for k in sorted(first_report)[:3]]
+    run_callers(ctx, replay_case)
     ctx.extra["rule"] = ("grid of lengths 0..9 x cell-allocation sizes {0,1,2,3,7,8,9,15,16,17,31,32,33,63,64,65,66,100,200,1023} x with/without ARFCN 0, "
                          "then random (lengths up to 255); bitmaps random / all ones / single bit / bits beyond the cell allocation / exactly the allocation / zero; "
                          "si4 in {0,1,2,-1}; stale HOPP and other flag bits in the table; short and over-long IE buffers; malformed wire lines; "
-                         "distinct_nontrivial = distinct (len, min(|CA|,65), ARFCN 0 in CA, ARFCN 0 selected, empty, full 64, cut by a bit beyond CA, si4) classes")
+                         "distinct_nontrivial = distinct (len, min(|CA|,65), ARFCN 0 in CA, ARFCN 0 selected, empty, full 64, cut by a bit beyond CA, si4) classes; "
+                         "callers: SI4 payloads = [CBCH channel description (H=0 / H=1) or none] + CBCH mobile allocation IE with every length octet 0..10 "
+                         "(bitmap kinds as above) + 0..3 rest octets, cut at EVERY position 0..end, SI1 received / not, previous list of 0/3/64/200 entries and "
+                         "stale HOPP flags, plus a hostile stream of random short payloads built from the two tags, length octets and noise; the message is an "
+                         "exact-size heap block (ASan redzone behind its last octet); gsm48_rr_render_ma: mob_alloc_lv with length octet 1..8 (and 9..255 with "
+                         "a previous ma_len <= 64) x the bitmap kinds; caller classes = (path, channel description, length octet, complete / cut in IE / "
+                         "cut after tag / cut in channel description / no IE, SI1, list empty / full)")
